@@ -226,7 +226,11 @@ class World:
                 from pulser.register.mappable_reg import MappableRegister
 
                 self.reg = MappableRegister(self.layout, *mp["declared"])
-                self.maps = []
+                self.maps = [
+                    # (a map on a single trap cannot be defined through a layout)
+                    self.reg.define_detuning_map({j: w for j, w in enumerate(m if len(m) > 1 else list(m) + [0.5])})
+                    for m in case.get("maps", [])
+                ]
             else:
                 self.layout = None
                 self.reg = seqimpl.build_register(case["register"])
